@@ -536,18 +536,24 @@ func init() {
 
 // extraClauses: clauses of the probe-derived rules, appended to the evidence explanation.
 var extraClauses = map[string][]string{
-	"C01": {"X5b/X1b: the hand-off primitives never report success for a send/receive that did not happen, a closed pipe reads as io.EOF, and a worker loop processes a value only when the producer returned no error"},
-	"C02": {"X5b/X1b/T1c: a closed pipe reads as io.EOF (no invented zero values), the processor sees only values returned without error, Close always closes, Next stores the value it read"},
+	"C01": {"R3/P7/R2: the operation StartGroup runs in n goroutines keeps no mutable captured state; no split output is closed on its own; no loop variable is captured by a closure that outlives its iteration", "X5b/X1b: the hand-off primitives never report success for a send/receive that did not happen, a closed pipe reads as io.EOF, and a worker loop processes a value only when the producer returned no error"},
+	"C02": {"R2/U9: the parts of Join are bound per iteration and the stage machine stores the next stage before falling through", "X5b/X1b/T1c: a closed pipe reads as io.EOF (no invented zero values), the processor sees only values returned without error, Close always closes, Next stores the value it read"},
 	"C04": {"X5b/T1c: ctx.Done() arms return an error (no silent success), Iterator.Close passes through doClose on every path"},
-	"C05": {"D10/D11/D5p: the tail pointer is reset when the last entry is unlinked, an append links from the old tail before the tail moves, popFront is only reached on a non-empty queue"},
-	"C06": {"X10: every *Front method works on root/root.next/dqNext and every *Back method on root.prev/dqPrev"},
-	"C08": {"K6/K7: Subscribe/Unsubscribe and the event loop agree on the channel roles; sendMsg is a two-arm select without default"},
-	"C10": {"X4/X4b: the collector behind Wait drops nothing but nil"},
-	"C14": {"V3: Done is Add(-1), Inc is Add(1)"},
-	"C16": {"D3k/X10: Stack.Pop moves head, length and ownership together; List's *Front/*Back methods use the end their name says"},
-	"C18": {"D6d/D6e: Equal compares sizes first; AddCheck inserts only after the presence test; DeleteCheck un-indexes on every path"},
-	"C19": {"H2/H1b: Equals compares every field; a bucket delta is mirrored in totalCount"},
-	"C20": {"D10/D11/D5p on the Queue's links (the iterator's `next != q.back` test relies on the tail reset)"},
+	"C05": {"X2c/X2d/X2e/N5: cap() is the bound from which add() refuses, Full is decided before NoCredit, the soft quota never drops below 1, dependent option defaults are computed in dependency order", "D10/D11/D5p: the tail pointer is reset when the last entry is unlinked, an append links from the old tail before the tail moves, popFront is only reached on a non-empty queue"},
+	"C06": {"X2c/X2d/X2e on the trackers behind the deque", "X10: every *Front method works on root/root.next/dqNext and every *Back method on root.prev/dqPrev"},
+	"C08": {"K2+/G1++: a failed Receive never reaches the dispatch; a sender goroutine that is a method is followed into its body", "K6/K7: Subscribe/Unsubscribe and the event loop agree on the channel roles; sendMsg is a two-arm select without default"},
+	"C10": {"W1–W8 for the WaitGroup behind Service.Wait", "X4/X4b: the collector behind Wait drops nothing but nil"},
+	"C09": {"X2c–X2e, D7/X10, W1–W8 for fun.WaitGroup: the back-ends and the Wait the broker relies on"},
+	"C11": {"W1–W8 (fun.WaitGroup) and the Queue wait rules: Service.Wait and the input queue of the orchestrator"},
+	"C12": {"X4b/X11/X12: the collector drops nothing but nil; no ers.Error from composed text; Unwind never rewrites its operand"},
+	"C13": {"L6c/L7/L4p: sent closures write no sender state; adt.Once fields outside the once body are atomic; panicking critical sections unlock by defer"},
+	"C14": {"V3: Done is Add(-1), Inc is Add(1)", "L4p: Add releases its mutex by defer (it can panic)"},
+	"C15": {"L7/U2b/U9 and W1–W8: adt.Once, the stage machine of Join, the StartGroup waiter"},
+	"C17": {"Q6b: no path re-links the popped elements without the stable sort"},
+	"C16": {"Q8/Q9: what is appended was born a member; the list producers decide EOF on the element advanced to", "D3k/X10: Stack.Pop moves head, length and ownership together; List's *Front/*Back methods use the end their name says"},
+	"C18": {"Q9/R1: the list iterator survives the removal of the element it stands on; JSON members decode into fresh values", "D6d/D6e: Equal compares sizes first; AddCheck inserts only after the presence test; DeleteCheck un-indexes on every path"},
+	"C19": {"H7: Merge replays each bucket at its own representative value", "H2/H1b: Equals compares every field; a bucket delta is mirrored in totalCount"},
+	"C20": {"W9b/L5: the Queue iterator tests closed only after resetting a stale cursor; element.list is write-once", "D10/D11/D5p on the Queue's links (the iterator's `next != q.back` test relies on the tail reset)"},
 }
 
 // extraRules: rules attached to a property after its main check function (used where the
